@@ -756,7 +756,7 @@ func main() {
 	res := lib.NewResult("C07", f)
 	n := 4000
 	if f.Thorough() {
-		n = 80000
+		n = 120000
 	}
 	const batch = 4000
 	distinct := lib.NewDistinct()
